@@ -119,16 +119,21 @@ def run(ctx):
         # tunnel differ without changing which ids coincide
         jobs.append(R.job("rel_%s_%s" % (topo, variant), topo, variant, edges=r.edges,
                           burn=[("T", "X")] if topo in ("fanin", "chain") else ()))
+        if topo == "fanin" and not q:
+            # also with the allocators in lock step (up id = down id): other numeric coincidences between the indices
+            jobs.append(R.job("rel_fanin_%s_lockstep" % variant, topo, variant, edges=r.edges))
     # ---- 4. operation-level scenarios --------------------------------------------------------------------------------
     scs = []
     for site, r in sids.items():
         ops = R.tail_ops(2, R.ops_of([s["a"] for s in R.cex_path(r)["steps"]]))
         for kind in ("tcp", "forward", "udp"):
             scs.append(R.scenario("%s-%s" % (site, kind), site_cfg[site]["topo"], kind, ops, idle_ms=0, no_leak=True))
-    # chain with skewed ids; tunnel 1 is ended by its target (close travelling exit -> ingress), tunnel 2 by its ingress
+    # chain with skewed ids (tunnel 1: 1 / 3, tunnel 2: 3 / 5): both tunnels are ended by their targets, the later one first,
+    # so closes travel exit -> ingress and the application's own close of tunnel 2 (id 3 from A) arrives at the transit while
+    # tunnel 1 still uses 3 as its downstream id: a close must be matched with the peer it came from
     chain_ops = [{"op": "burn", "a": "T", "p": "X"}] + [{"op": k, "t": t} for k, t in (
-        ("open", 1), ("send", 1), ("open", 2), ("send", 2), ("rsend", 1), ("rsend", 2), ("tclose", 1), ("send", 2), ("rsend", 2),
-        ("close", 2))]
+        ("open", 1), ("send", 1), ("open", 2), ("send", 2), ("rsend", 1), ("rsend", 2), ("tclose", 2), ("send", 1), ("rsend", 1),
+        ("tclose", 1))]
     for kind in ("tcp", "forward", "udp"):
         scs.append(R.scenario("chain-%s" % kind, "chain", kind, chain_ops, idle_ms=0, no_leak=True))
     # exit-originated close (UDP idle expiry at the exit) with two associations of one ingress and skewed ids; slow reader
